@@ -309,7 +309,8 @@ func (engine *Engine) Shutdown(ctx context.Context) (err error) {
 		return errStatusNotRunning
 	}
 	if !atomic.CompareAndSwapUint32(&engine.status, statusRunning, statusShutdown) {
-		return
+		// another Shutdown call got in between: this one is the second
+		return errStatusNotRunning
 	}
 
 	opt := engine.GetOptions()
